@@ -370,6 +370,14 @@ fn run_dim<const D: usize>(rep: &Report, cn: &Counters, thorough: bool, bounds: 
         var_cfgs.push(Cfg { dedup: DedupPolicy::Epsilon { tolerance: tol }, with_stats: true, ..Cfg::default_cfg() });
     }
     var_cfgs.push(Cfg { dedup: DedupPolicy::Exact, with_stats: true, ..Cfg::default_cfg() });
+    if !thorough {
+        // Pseudomanifold skips the completion-time re-validation, so whatever the last insertion / flip left behind is
+        // what the caller gets (negatively oriented cells were found this way in the thorough tier: fix 4e756eb)
+        for s in simplexes() {
+            var_cfgs.push(Cfg { guarantee: TopologyGuarantee::Pseudomanifold, simplex: s, ..Cfg::default_cfg() });
+            var_cfgs.push(Cfg { guarantee: TopologyGuarantee::Pseudomanifold, simplex: s, retry: RetryPolicy::Disabled, ..Cfg::default_cfg() });
+        }
+    }
     let nvar = AtomicU64::new(0);
     var_sets.par_iter().for_each(|set| {
         let mut variants: Vec<(String, Vec<[f64; D]>)> = Vec::new();
